@@ -64,6 +64,9 @@ def handle (op : String) (j : Json) : Except String Json := do
   | "amb" =>
     let n ← getNat j "n"
     pure (respond (ambM n) (ambInit n) (List.range n).reverse (← evsJ.mapM (evOfJson plainEv)) valToJson)
+  | "amb_nested" =>
+    let n ← getNat j "n"
+    pure (respond (ambNestedM n) (ambNestedInit n) (List.range n).reverse (← evsJ.mapM (evOfJson plainEv)) valToJson)
   | "amb2" =>
     pure (respond (ambM 2) amb2Init [0, 1] (← evsJ.mapM (evOfJson plainEv)) valToJson)
   | "merge_all" =>
